@@ -429,7 +429,7 @@ func (d *Decoder) processNodeElt(ectx evaluationContext, startElement xml.StartE
 					t.textOffsets[encoding.SubjectStatementOffsets] = *eSubjectLocation
 				}
 
-				if attr.Metadata != nil {
+				if attr.located() {
 					t.textOffsets[encoding.PredicateStatementOffsets] = attr.Metadata.Name
 
 					if attr.Metadata.Value != nil {
@@ -483,7 +483,7 @@ func (d *Decoder) processNodeElt(ectx evaluationContext, startElement xml.StartE
 				t.textOffsets[encoding.SubjectStatementOffsets] = *eSubjectLocation
 			}
 
-			if attr.Metadata != nil {
+			if attr.located() {
 				t.textOffsets[encoding.PredicateStatementOffsets] = attr.Metadata.Name
 
 				if attr.Metadata.Value != nil {
@@ -852,7 +852,7 @@ func (d *Decoder) processPropertyElt(ectx evaluationContext, startElement xml.St
 									t.textOffsets[encoding.SubjectStatementOffsets] = otv
 								}
 
-								if attr.Metadata != nil {
+								if attr.located() {
 									t.textOffsets[encoding.PredicateStatementOffsets] = attr.Metadata.Name
 
 									if attr.Metadata.Value != nil {
@@ -921,7 +921,7 @@ func (d *Decoder) processPropertyElt(ectx evaluationContext, startElement xml.St
 							t.textOffsets[encoding.SubjectStatementOffsets] = otv
 						}
 
-						if attr.Metadata != nil {
+						if attr.located() {
 							t.textOffsets[encoding.PredicateStatementOffsets] = attr.Metadata.Name
 
 							if attr.Metadata.Value != nil {
